@@ -111,3 +111,23 @@ Fixpoint assign_elems (g : grid) (sel : list (nat * nat * Z)) : grid :=
   | (i, k, v) :: r => assign_elems (set_elem g i k v) r
   end.
 Definition sel_pos (e : nat * nat * Z) : nat * nat := fst e.
+
+(* ------------------------------------------------------------------------------------------ *)
+(* a header between two files: what a writer's file announces                                   *)
+(* ------------------------------------------------------------------------------------------ *)
+(* A LasHeader that was read from a file carries that file's bookkeeping (start_of_first_evlr, number_of_evlrs).  A LasWriter
+   takes its own copy and calls partial_reset (Gen/GenC02.v writer_init_resets, partial_reset_evlrs); write_evlrs — called at most
+   once, after the points, with the stream at [end_of_points] — sets the two fields (write_evlrs_fields); the header written on
+   close carries what results.  [had_*]: the fields of the header handed to the writer; [given]: None = write_evlrs is not called,
+   Some k = it is called with k records.  None = the call is refused. *)
+Definition writer_evlr_fields (minor had_start had_count end_of_points : Z) (given : option Z) : option (Z * Z) :=
+  if writer_init_resets then
+    let '(s, c) := partial_reset_evlrs had_start had_count in
+    match given with
+    | None => Some (s, c)
+    | Some k => write_evlrs_fields minor k end_of_points s c
+    end
+  else None.
+
+(* the methods of LasHeader that give the header another point format / other extra dimensions all rebuild the Extra Bytes VLR *)
+Definition point_format_writers_sync : bool := forallb (fun r : string * bool => snd r) point_format_writers.
